@@ -152,6 +152,13 @@ bool tableValid(const ColoquinteParameters &p, const std::vector<Field> &tab) {
 /// Probe value for a field: k = 0 below lower, 1 above lower, 2 below upper,
 /// 3 above upper (never exactly on a bound for real-valued fields).
 bool probeValue(const Field &f, int k, double &v) {
+  if (k >= 4) {
+    // far from the bounds: zero, negative, huge
+    static const double far[] = {0.0, -1.0, 1e9, -1e9};
+    v = far[k - 4];
+    if (f.isInt) v = (double)(long long)v;
+    return true;
+  }
   double b = k < 2 ? f.lo : f.hi;
   if (std::fabs(b) >= INF) return false;
   bool above = (k == 1 || k == 3);
@@ -438,7 +445,7 @@ bool prop(Tape &t, Report &R) {
     h.add(1).add(e);
     for (int q = 0; q < k; ++q) {
       const Field &f = tab[t.choose(0, (int)tab.size() - 1)];
-      int probe = t.choose(0, 3);
+      int probe = t.choose(0, 7);
       double v;
       if (!probeValue(f, probe, v)) continue;
       f.set(p, v);
@@ -552,7 +559,7 @@ bool exhaustive(Report &R, int shard, int nshards, Tape &failTape) {
   }
   for (int e : {1, 5, 9}) {
     for (size_t fi = 0; fi < tab.size(); ++fi)
-      for (int k = 0; k < 4; ++k) {
+      for (int k = 0; k < 8; ++k) {
         if (!mine()) continue;
         bool applies, rejected;
         std::string r = oneFieldProbe(tab, e, (int)fi, k, applies, rejected);
@@ -596,7 +603,7 @@ bool exhaustive(Report &R, int shard, int nshards, Tape &failTape) {
   }
   R.exhaustiveDone = true;
   R.sample("{\"exhaustive\":\"efforts -16..32 through all 7 constructors; each of " + std::to_string(tab.size()) +
-           " bounded fields x 4 probes x efforts {1,5,9}, each rejected set through the 3 stages; "
+           " bounded fields x 8 probes (four at the bounds, four far from them: 0, -1, 1e9, -1e9) x efforts {1,5,9}, each rejected set through the 3 stages; "
            "11 setters x wrong lengths {0,n-1,n+1,2n} x n=1..6; addNet/setNets x 10 defect kinds x positions x "
            "out-of-range values {n,n+1,-1,-2,INT_MAX,INT_MIN}\"}");
   return true;
